@@ -1387,17 +1387,199 @@ class LinksInit(FnSpec):
         ]
 
 
+# ---- TOCLinks.repair_missing: links of copied / moved metadata objects -----------------------------------------------------------------
+MNode = z3.DeclareSort("MetadataObjectNode")
+UUID_IN_NAME = z3.Function("uuid_encoded_in_the_node_name", MNode, UU)  # StoredMetadata.from_node(n).uuid (its own contract)
+NODE_PATH = z3.Function("path_of_the_node", MNode, S_)
+TO_PATH = z3.Function("canonical_object_path_with_uuid", MNode, UU, S_)  # StoredMetadata.to_path() after obj.uuid = u (its own contract)
+
+
+class TMNode:
+    def sort(self):
+        return MNode
+
+    def wrap(self, t):
+        return MNodeV(t)
+
+    def unwrap(self, cx, v):
+        return v.t
+
+
+class MNodeV(SVal):
+    def __init__(self, t):
+        self.t = t
+
+    def py_getattr(self, cx, n):
+        if n == "name":
+            return SStr(NODE_PATH(self.t))
+        raise Unsupported("node attribute " + n)
+
+
+class StoredStub(SVal):
+    """StoredMetadata.from_node(node): a mutable record (uuid and node are reassigned by repair_missing)"""
+
+    def __init__(self, n_t):
+        self.n_t = n_t
+        self.uuid = UuidV(UUID_IN_NAME(n_t))
+        self.node = MNodeV(n_t)
+
+    def py_getattr(self, cx, n):
+        if n == "uuid":
+            return self.uuid
+        if n == "node":
+            return self.node
+        raise Unsupported("stored metadata attribute " + n)
+
+    def py_setattr(self, cx, n, v):
+        if n == "uuid":
+            self.uuid = v
+        elif n == "node":
+            self.node = v
+        else:
+            raise Unsupported("assignment to stored metadata attribute " + n)
+
+    def meth_to_path(self, cx):
+        return SStr(TO_PATH(self.n_t, self.uuid.t))
+
+
+class MovedNode(SVal):
+    def __init__(self, path_t):
+        self.path_t = path_t
+
+
+class RepairRaw(SVal):
+    def __init__(self, a):
+        self.a = a
+
+    def meth_move(self, cx, src, dst):
+        a = self.a
+        n = a.cur_node(cx)
+        cx.oblige("moves-the-node-being-repaired", "call-pre", src.t == NODE_PATH(n), clause="the node renamed is the one being repaired")
+        a.moved.py_setitem(cx, MNodeV(n), dst)
+
+    def py_getitem(self, cx, p):
+        return MovedNode(p.t)
+
+
+class RepairMissing(FnSpec):
+    file = "container/interface.py"
+    qual = "TOCLinks.repair_missing"
+    props = ("C06",)
+
+    def init(self):
+        self.bindings["cast"] = lambda cx, t, v: v
+        self.bindings["H5DatasetLike"] = SClass("H5DatasetLike")
+        def from_node(s, cx, n):
+            cx.ghost["rm_cur"] = n.t  # the object being handled in this iteration (the collaborators below are told about it)
+            return StoredStub(n.t)
+
+        self.bindings["StoredMetadata"] = type("SM", (SVal,), {"meth_from_node": from_node})()
+
+        def inv(cx, env, it):
+            a = cx.ghost["rm"]
+            L, tp = a.missing, a.self.fields["_toc_path"]
+            j = z3.Int(fresh_name("rj"))
+            n = z3.Const(fresh_name("rn"), MNode)
+            n2 = z3.Const(fresh_name("rn2"), MNode)
+            u = z3.Const(fresh_name("ru"), UU)
+            nj = L.at_term(j)
+            upd_case = z3.And(a.upd_flag.t, a.tp0.has(UUID_IN_NAME(nj)))
+            return [
+                ("handled-so-far", z3.ForAll([j], z3.Implies(z3.And(0 <= j, j < it.i), z3.If(upd_case, z3.And(a.updated.has(nj), a.updated.get_term(nj) == NODE_PATH(nj), z3.Not(a.registered.has(nj)), z3.Not(a.moved.has(nj))), self.renamed(a, nj))))),
+                ("only-listed-nodes-touched", z3.ForAll([n], z3.Implies(z3.Or(a.updated.has(n), a.registered.has(n), a.moved.has(n)), z3.Exists([j], z3.And(0 <= j, j < it.i, L.at_term(j) == n))))),
+                ("known-uuids-stay-known-new-ones-are-fresh", z3.ForAll([u], z3.And(z3.Implies(a.tp0.has(u), tp.has(u)), z3.Implies(z3.And(tp.has(u), z3.Not(a.tp0.has(u))), a.fresh.has(u))))),
+                ("fresh-uuids-are-nobodys-old-uuid", z3.ForAll([u, n], z3.Implies(a.fresh.has(u), z3.And(z3.Not(a.tp0.has(u)), UUID_IN_NAME(n) != u)))),
+                ("list-not-edited", a.live_missing.ext_eq(L)),
+                ("new-uuids-pairwise-distinct", z3.ForAll([n, n2], z3.Implies(z3.And(a.registered.has(n), a.registered.has(n2), n != n2), a.registered.get_term(n) != a.registered.get_term(n2)))),
+                ("registered-uuids-are-fresh-ones", z3.ForAll([n], z3.Implies(a.registered.has(n), a.fresh.has(a.registered.get_term(n))))),
+            ]
+
+        self.loops[0] = LoopSpec(inv, modifies=["node", "obj", "new_path"], havoc_inplace=["self._toc_path", "self.updated_log", "self.registered_log", "self.moved_log", "self.fresh_log"])
+
+    @staticmethod
+    def renamed(a, n):
+        u = a.registered.get_term(n)
+        return z3.And(a.registered.has(n), a.fresh.has(u), a.moved.has(n), a.moved.get_term(n) == TO_PATH(n, u), z3.Not(a.updated.has(n)))
+
+    def setup(self, cx):
+        o = SObj("TOCLinksRepair", name="self")
+        tp = SMap.fresh(TUuid(), STR, "toc_path")
+        o.fields["_toc_path"] = tp
+        a = A(self=o)
+        a.missing = SSeq.fresh(TMNode(), "missing_nodes")
+        a.live_missing = a.missing.snapshot() if hasattr(a.missing, "snapshot") else a.missing
+        a["missing"] = a.live_missing
+        a.upd_flag = SBool(z3.Bool("update_flag"))
+        a["update"] = a.upd_flag
+        a.tp0 = tp.snapshot()
+        a.updated, a.moved = SMap(TMNode(), STR, name="updated"), SMap(TMNode(), STR, name="moved")
+        a.registered = SMap(TMNode(), TUuid(), name="registered")
+        a.fresh = SSet(TUuid())
+        o.fields["updated_log"], o.fields["moved_log"], o.fields["registered_log"], o.fields["fresh_log"] = a.updated, a.moved, a.registered, a.fresh
+        o.fields["_raw"] = RepairRaw(a)
+        i, j = z3.Ints("di dj")
+        cx.assume(z3.ForAll([i, j], z3.Implies(z3.And(0 <= i, i < j, j < a.missing.n), a.missing.at_term(i) != a.missing.at_term(j))))  # find_missing lists each node once
+        a.cur_node = lambda cx2: self._node_of(cx2, a)
+
+        def upd(cx2, uuid, target):
+            n = self._node_of(cx2, a)
+            cx2.oblige("updates-the-link-of-that-objects-uuid", "call-pre", uuid.t == UUID_IN_NAME(n), clause="the link updated is the one of the uuid in the node's name")
+            a.updated.py_setitem(cx2, MNodeV(n), target)
+
+        def fresh_uuid(cx2):
+            u = z3.Const(fresh_name("fresh_uuid"), UU)
+            nn = z3.Const(fresh_name("fn"), MNode)
+            cx2.assume(z3.And(z3.Not(tp.has(u)), z3.Not(a.tp0.has(u)), z3.Not(a.fresh.has(u)), z3.ForAll([nn], UUID_IN_NAME(nn) != u)))  # fresh_uuid: not in use (its loop); T6: no node name carries it
+            a.fresh.py_call_method(cx2, "add", [UuidV(u)], {})
+            tp.py_setitem(cx2, UuidV(u), SStr(z3.String(fresh_name("reserved"))))
+            return UuidV(u)
+
+        def register(cx2, obj):
+            n = self._node_of(cx2, a)
+            cx2.oblige("registers-the-renamed-object", "call-pre", z3.And(z3.BoolVal(isinstance(obj, StoredStub) and obj.n_t is n and isinstance(obj.node, MovedNode)), obj.node.path_t == TO_PATH(n, obj.uuid.t) if isinstance(obj.node, MovedNode) else z3.BoolVal(False)), clause="what is registered is this object, with its new uuid, at its new path")
+            a.registered.py_setitem(cx2, MNodeV(n), obj.uuid)
+
+        o.fields["update"], o.fields["fresh_uuid"], o.fields["register"] = upd, fresh_uuid, register
+        cx.ghost["rm"] = a
+        return a
+
+    @staticmethod
+    def _node_of(cx, a):
+        fr_node = cx.ghost.get("rm_cur")
+        if fr_node is None:
+            raise Unsupported("collaborator called outside the handling of a node")
+        return fr_node
+
+    def raises(self, cx, a):
+        return {}
+
+    def ensures(self, cx, a, res):
+        L = a.missing
+        j = z3.Int(fresh_name("ej"))
+        n = z3.Const(fresh_name("en"), MNode)
+        j2 = z3.Int(fresh_name("ek"))
+        nj = L.at_term(j)
+        upd_case = z3.And(a.upd_flag.t, a.tp0.has(UUID_IN_NAME(nj)))
+        return [
+            ("moved-objects-keep-their-uuid-and-get-their-link-retargeted", z3.ForAll([j], z3.Implies(z3.And(0 <= j, j < L.n, upd_case), z3.And(a.updated.has(nj), a.updated.get_term(nj) == NODE_PATH(nj), z3.Not(a.registered.has(nj)), z3.Not(a.moved.has(nj))))), "with update=True an object whose uuid the TOC knows keeps its name; its existing link is pointed at the object's current path (move)"),
+            ("all-others-get-a-fresh-uuid-a-new-name-and-a-new-link", z3.ForAll([j], z3.Implies(z3.And(0 <= j, j < L.n, z3.Not(upd_case)), self.renamed(a, nj))), "every other listed object (copy, or unknown uuid) gets a uuid that was in use nowhere, is renamed to the canonical path for it, and is registered under it — the original's link is never touched"),
+            ("fresh-uuids-pairwise-distinct", z3.ForAll([j, j2], z3.Implies(z3.And(0 <= j, j < j2, j2 < L.n, a.registered.has(L.at_term(j)), a.registered.has(L.at_term(j2))), a.registered.get_term(L.at_term(j)) != a.registered.get_term(L.at_term(j2)))), "no two objects end up with the same uuid"),
+            ("nothing-else-touched", z3.ForAll([n], z3.Implies(z3.Or(a.updated.has(n), a.registered.has(n), a.moved.has(n)), z3.Exists([j], z3.And(0 <= j, j < L.n, L.at_term(j) == n)))), "only the listed objects are renamed, registered or retargeted"),
+        ]
+
+
 def add_tocreg(reg):
     reg.set_class_home("TOCPackages", "container/interface.py")
     reg.attr_bindings[("PkgInfo", "plugins")] = lambda cx, o: PluginsStub(o.t)
     reg.method_bindings[("TocSchemasStub", "_register")] = lambda cx, o, ref: cx.effect("schemas-register", ref)
     reg.method_bindings[("TocSchemasStub", "_unregister")] = lambda cx, o, ref: cx.effect("schemas-unregister", ref)
     reg.set_class_home("TOCLinks", "container/interface.py")
+    reg.set_class_home("TOCLinksRepair", "container/interface.py", "TOCLinks")
     reg.attr_bindings[("PkgInfo", "name")] = lambda cx, o: SStr(INFO_NAME(o.t))
     reg.attr_bindings[("PkgInfo", "version")] = lambda cx, o: VER.wrap(INFO_VER(o.t))
     reg.attr_bindings[("SchemaRef", "name")] = lambda cx, o: SStr(REF_NAME(o.t))
     reg.attr_bindings[("SchemaRef", "version")] = lambda cx, o: VER.wrap(REF_VER(o.t))
-    specs = [AddProviders(), PkgRegister(), PkgUnregister(), SchemaRegister(), SchemaUnregister(), LinksRegister(), LinksUnregister(), LinksUpdate(), SchemasInit(), PackagesInit(), LinksInit()]
+    specs = [AddProviders(), PkgRegister(), PkgUnregister(), SchemaRegister(), SchemaUnregister(), LinksRegister(), LinksUnregister(), LinksUpdate(), SchemasInit(), PackagesInit(), LinksInit(), RepairMissing()]
     for s in specs:
         reg.add(s)
     return specs
